@@ -642,7 +642,7 @@ func TestC09(t *testing.T) {
 		"M-CAL: proleptic Gregorian day numbers, months clamp to the month end, 1 week = 7 days, a unit finer than the precision is converted first (12 months or 365 days per year, 30 days per month, 24 h, 60 min, 60 s; fractions dropped), amounts above seconds truncate toward zero, seconds keep milliseconds, Time wraps modulo 24 h", "accepted alternatives: quoted/UCUM time units and week/day applied to a Time may be an error or the model value; results outside 0001..9999 may be anything but a panic")
 	runProperty(t, r,
 		Stage[c09Case]{Name: "month-ends", Enum: c09Enum, Run: c09Run},
-		Stage[c09Case]{Name: "random", Gen: c09Gen, Run: c09Run, N: pick(15000, 400000)},
-		Stage[c09RelCase]{Name: "relations", Gen: c09GenRel, Run: c09RunRel, N: pick(4000, 100000)},
+		Stage[c09Case]{Name: "random", Gen: c09Gen, Run: c09Run, N: pick(30000, 400000)},
+		Stage[c09RelCase]{Name: "relations", Gen: c09GenRel, Run: c09RunRel, N: pick(8000, 100000)},
 	)
 }
